@@ -152,6 +152,8 @@ def with_history(d, hist):
     d2.order_sensitive = getattr(d, 'order_sensitive', ())
     d2.pe_sensitive = getattr(d, 'pe_sensitive', ())
     d2.embed = getattr(d, 'embed', ())
+    if hasattr(d, 'sep'):
+        d2.sep = d.sep
     return d2
 
 
@@ -645,6 +647,8 @@ def build_case(kind, setup_idx, sub):
                     if t.get('local') in d.embed:
                         pes.update(c for c, _tg in t['conds'] if c not in sens and r2.random() < 0.7)
         d.pe_sensitive = frozenset(pes)
+        if setup[2]:
+            d.sep = r2.choice(['_', '_', '.', '/'])
     if kind == 'routing' and setup[3]:
         # async stages run as gather: keep every stage to one callback so that the routing clause is unambiguous
         for s in d.states:
